@@ -146,6 +146,7 @@ class ExprGen:
                 return None
             self.feats.add("builder.shared_field_mutation")
             obj = meth
+            shape["shared"] = True
             sub_holder = self.holder_for(named)
             if sub_holder is None or not self.fill(obj, sub_holder, named, shape, depth - 1, level + 1):
                 return None
@@ -313,6 +314,27 @@ def doc_shape(selset) -> Tuple[List[Any], Dict[str, Any]]:
 def expected_shape(shapes: List[Dict[str, Any]]) -> List[Any]:
     return [{"field": s["field"], "key": s["key"], "children": expected_shape(s["children"]), "on": {k: expected_shape(v) for k, v in s["on"].items()},
              "argnames": sorted(s["args"])} for s in shapes]
+
+
+def leak_model(got: List[Any], shapes: List[Dict[str, Any]], shared: bool = False) -> bool:
+    """The listed defect, exactly: response keys may differ anywhere; at a node built from ONE class-level field object (shape["shared"]) the sub-selections may
+    additionally contain entries left behind by earlier operations, so the expected entries appear in order among them.  Everywhere else the lists are equal."""
+    gi = 0
+    for s in shapes:
+        while True:
+            if gi >= len(got):
+                return False
+            g = got[gi]
+            gi += 1
+            if g["field"] == s["field"] and g["argnames"] == sorted(s["args"]):
+                sh = bool(s.get("shared"))
+                ok = leak_model(g["children"], s["children"], sh) and (set(s["on"]) <= set(g["on"]) if sh else set(s["on"]) == set(g["on"])) and all(
+                    leak_model(g["on"][k], v, sh) for k, v in s["on"].items())
+                if ok:
+                    break
+            if not shared:
+                return False
+    return shared or gi == len(got)
 
 
 def worker(case: Dict[str, Any]) -> CaseResult:
@@ -484,8 +506,8 @@ def worker(case: Dict[str, Any]) -> CaseResult:
                             return {k: ("*" if k == "key" else blank(v)) for k, v in x.items()}
                         return x
                     mech = "c14:faithful-shape"
-                    if "builder.shared_field_mutation" in dirty and blank(got_shape) == blank(want_shape):
-                        mech = "builder.shared_field_mutation"  # only response keys differ: aliases leaked through shared field objects
+                    if "builder.shared_field_mutation" in dirty and (blank(got_shape) == blank(want_shape) or leak_model(got_shape, shapes)):
+                        mech = "builder.shared_field_mutation"  # only response keys differ (aliases leaked), or a shared class-level object still carries earlier .on()/.fields() entries
                     violations.append(Violation(PROP, "faithful-shape", "expression %d: document shape differs from the expression\n got  %s\n want %s" % (
                         ei, json.dumps(got_shape)[:500], json.dumps(want_shape)[:500]), fl, replay_case, mech=mech))
                     continue
